@@ -20,7 +20,7 @@ from __future__ import annotations
 
 import ast
 
-from translate.base import Unavailable, find_function, parse, write_if_changed, lean_bool
+from translate.base import Unavailable, find_function, inline_pure_locals, parse, write_if_changed, lean_bool
 
 GP = "analysis/graph_properties.py"
 RO = "analysis/roughness.py"
@@ -85,6 +85,7 @@ def assigned(fn: ast.AST, name: str) -> list[ast.AST]:
 
 
 def scan_constants(fn: ast.FunctionDef) -> dict:
+    fn = inline_pure_locals(fn, {"intervals", "initial_energy", "energy"})
     vals = assigned(fn, "intervals")
     if len(vals) != 1:
         raise Unavailable("intervals")
